@@ -177,19 +177,22 @@ class CallMixin:
         app = uf(*terms)
         if fuel is None:
             fuel = getattr(self, "cur_fuel", 1)
-            if all(z3.is_int_value(z3.simplify(t)) for t in terms if t.sort() == I) and any(t.sort() == I for t in terms):
-                fuel = max(fuel, 6)
+            if getattr(self, "unfold_depth", 0) == 0 and any(t.sort() == I for t in terms) and \
+                    all(z3.is_int_value(z3.simplify(t)) for t in terms if t.sort() == I):
+                fuel = max(fuel, 4)
         key = app.sexpr()
         if fuel > 0 and key not in self.axioms:
             self.axioms[key] = z3.BoolVal(True)      # placeholder: cut recursion on the same application
             save = getattr(self, "cur_fuel", 1)
             self.cur_fuel = fuel - 1
+            self.unfold_depth = getattr(self, "unfold_depth", 0) + 1
             try:
                 q.env = {pn: self.wrap_term(t) if not isinstance(a, VBytes) else VBytes(t, "bytes")
                          for (pn, _, _), a, t in zip(params, args, terms)}
                 bodyv = self.ev(expr, q, fi.module)
             finally:
                 self.cur_fuel = save
+                self.unfold_depth -= 1
             self.axioms[key] = app == self.term_of(bodyv, rs)
         return self.wrap_term(app)
 
@@ -237,7 +240,7 @@ class CallMixin:
             if not (isinstance(fmt, VStr) and fmt.lit == "B"):
                 raise Unsupported("struct.unpack format")
             self.may_raise(p, z3.Length(data.t) != 1, "struct.error", ln)
-            return VTuple([VInt(data.t[0])])
+            return VTuple([self.index_value(data, VInt(0), p, node)])
         if name == "set":
             if args:
                 raise Unsupported("set(iterable)")
@@ -419,7 +422,7 @@ class CallMixin:
 
     def note_bytes(self, t, p):
         q = z3.Int("q!r")
-        p.pc.append(z3.ForAll([q], z3.Implies(z3.And(0 <= q, q < z3.Length(t)), z3.And(0 <= t[q], t[q] <= 255)), patterns=[t[q]]))
+        p.pc.append(z3.ForAll([q], z3.Implies(z3.And(0 <= q, q < z3.Length(t)), z3.And(0 <= t[q], t[q] <= 255))))
 
     # ------------------------------------------------------------------ constructors
     def construct(self, ci, args, kwargs, p, module, node):
@@ -716,18 +719,28 @@ def _p_empty(eng, args, p):
     return VBytes(z3.Empty(S), "bytes")
 
 
+def _clamp0(eng, k, n, p):
+    if p is not None and eng.implied(p, z3.And(k >= 0, k <= n)):
+        return k
+    return z3.If(k < 0, z3.IntVal(0), z3.If(k > n, n, k))
+
+
 def _p_take(eng, args, p):
     s, k = args[0].t, eng.as_int(args[1])
     n = z3.Length(s)
-    kk = z3.If(k < 0, z3.IntVal(0), z3.If(k > n, n, k))
-    return VBytes(z3.Extract(s, z3.IntVal(0), kk), "bytes")
+    kk = _clamp0(eng, k, n, p)
+    if p is not None:
+        return VBytes(eng.mk_extract(s, z3.IntVal(0), kk, p), "bytes")
+    return VBytes(z3.Extract(s, z3.IntVal(0), z3.simplify(kk)), "bytes")
 
 
 def _p_drop(eng, args, p):
     s, k = args[0].t, eng.as_int(args[1])
     n = z3.Length(s)
-    kk = z3.If(k < 0, z3.IntVal(0), z3.If(k > n, n, k))
-    return VBytes(z3.Extract(s, kk, n - kk), "bytes")
+    kk = _clamp0(eng, k, n, p)
+    if p is not None:
+        return VBytes(eng.mk_extract(s, kk, n, p), "bytes")
+    return VBytes(z3.Extract(s, z3.simplify(kk), z3.simplify(n - kk)), "bytes")
 
 
 def _p_is_bytes(eng, args, p):
